@@ -1,4 +1,4 @@
-"""Model of the regex crate (outside /repo) for the pattern shape used by strip_html: `(?flags)PREFIX.*?SUFFIX` with literal
+"""Model of the regex crate (outside /repo) for the pattern shapes `(?flags)PREFIX.*?SUFFIX`, `PREFIX[^set]*?SUFFIX`, `PREFIX[set]*?SUFFIX` with literal
 PREFIX/SUFFIX and flags among i (Unicode simple case folding) and s (dot matches \\n).  Regex::replace_all with a literal
 replacement has leftmost-first, non-overlapping semantics; the lazy `.*?` stops at the first SUFFIX after PREFIX.
 Any other pattern is Unsupported (the obligation is then inconclusive, never a pass)."""
@@ -19,10 +19,16 @@ def parse_pattern(p):
     m = re.match(r'^\(\?([a-zA-Z]+)\)', p)
     if m: flags = m.group(1); p = p[m.end():]
     if set(flags) - set('is'): raise Unsupported(f'regex flags {flags!r}')
-    if p.count('.*?') != 1: raise Unsupported(f'regex {p!r}: only PREFIX.*?SUFFIX patterns are modelled')
-    pre, suf = p.split('.*?')
+    m = re.match(r'^(.*?)(\.|\[\^?[^\]\\]+\])\*\?(.*)$', p, re.S)
+    if not m: raise Unsupported(f'regex {p!r}: only PREFIX<class>*?SUFFIX patterns (class: . or [..] or [^..]) are modelled')
+    pre, cls, suf = m.group(1), m.group(2), m.group(3)
     if not pre or not suf or (set(pre) | set(suf)) & META: raise Unsupported(f'regex {p!r}: only literal PREFIX/SUFFIX are modelled')
-    return {'i': 'i' in flags, 's': 's' in flags, 'pre': pre, 'suf': suf, 'src': p}
+    if cls == '.': mid = ('dot',)
+    else:
+        neg = cls.startswith('[^'); members = cls[2:-1] if neg else cls[1:-1]
+        if '-' in members[1:-1] or ('i' in flags and any(ch.isalpha() for ch in members)): raise Unsupported(f'regex class {cls!r}')
+        mid = ('notin' if neg else 'in', tuple(ord(ch) for ch in members))
+    return {'i': 'i' in flags, 's': 's' in flags, 'pre': pre, 'suf': suf, 'mid': mid, 'src': p}
 
 
 @model(r'^(?:regex::)?Regex::new$')
@@ -70,17 +76,21 @@ def replace_all(ex, st, rx, text, rep):
         for s1, hit in lit_at(ex, s_, text, j, suf, ic):
             if hit:
                 yield s1, j + len(suf); continue
-            if not dotall:
-                c = text[j]
-                nl = (c == 10) if isinstance(c, int) else None
-                if nl is True:
-                    yield s1, None; continue
-                if nl is None:
-                    for s2, isnl in ex.fork_bool(s1, c == 10):
-                        if isnl: yield s2, None
-                        else: yield from find_end(s2, j + 1, i0)
-                    continue
-            yield from find_end(s1, j + 1, i0)
+            c = text[j]
+            mid = rx['mid']
+            if mid[0] == 'dot':
+                ok = True if dotall else ((c != 10) if isinstance(c, int) else (c != 10))
+            elif mid[0] == 'notin':
+                ok = (c not in mid[1]) if isinstance(c, int) else z3.And(*[c != k for k in mid[1]])
+            else:
+                ok = (c in mid[1]) if isinstance(c, int) else z3.Or(*[c == k for k in mid[1]])
+            if ok is True:
+                yield from find_end(s1, j + 1, i0); continue
+            if ok is False:
+                yield s1, None; continue
+            for s2, fits in ex.fork_bool(s1, ok):
+                if fits: yield from find_end(s2, j + 1, i0)
+                else: yield s2, None
     def scan(s_, pos, i, out):
         if i + len(pre) + len(suf) > n:
             yield s_, out + list(text[pos:]); return
